@@ -57,6 +57,15 @@ class C14Monitor:
             ctx.count("crash:%s:%s:%s" % (op.label, type(exc).__name__, probes.innermost_frame(exc)))
             if d is not None:
                 ctx.count("crash_changed_state:%s" % op.label)
+                if op.strat != "valid":
+                    # the call was given an argument that violates a precondition and ended with an exception that is
+                    # not one of the explicit checks (e.g. list.remove's ValueError): to the caller it is a refusal too
+                    k, was, now = d
+                    ctx.violation("failed-call-changed-state:%s:%s" % (op.label, k[0]),
+                                  "%s (%s) ended with %s: %s at %s (no explicit check) and fact %s changed from %r to %r; log=%s" % (
+                                      op.desc, op.strat, type(exc).__name__, str(exc)[:80], probes.innermost_frame(exc), k[0], was, now, eng.log[-6:]),
+                                  {"fact": str(k)})
+                    return True
             return False
         ctx.count("refusals_checked")
         ctx.count("refused:%s:%s" % (op.label, op.strat))
